@@ -319,6 +319,8 @@ MERGE_FAILURES = [
     # the same causes delivered through the other channels
     "implicit-stdin-invalid", "implicit-stdin-clash", "dash-stdin-invalid",
     "multidoc-self-clash",
+    # merges fine, but the result cannot be expressed in the requested format
+    "unjsonable-output",
 ]
 OUTPUT_MODES = ["stdout", "output-new", "overwrite-input", "overwrite-other",
                 "overwrite-new"]
@@ -362,7 +364,8 @@ def gen_merge(rng, label=None, backup=None, mode=None):
                                   "implicit-stdin-invalid",
                                   "implicit-stdin-clash",
                                   "dash-stdin-invalid",
-                                  "multidoc-self-clash"):
+                                  "multidoc-self-clash",
+                                  "unjsonable-output"):
         mode = mode or rng.choice(OUTPUT_MODES)
     elif label == "output-exists":
         mode = "output-existing"
@@ -486,6 +489,14 @@ def gen_merge(rng, label=None, backup=None, mode=None):
         files[inputs[0]] = "---\nk:\n  a: 1\n---\n- a\n- list\n"
         argv = [a for i, a in enumerate(argv)
                 if a != "-M" and (i == 0 or argv[i - 1] != "-M")]
+    elif label == "unjsonable-output":
+        # a mapping key that is itself a sequence has no JSON spelling
+        files[inputs[0]] = "---\nplain: 1\n? [region, zone]\n: east\n"
+        for name in inputs[1:]:
+            files[name] = "---\nother: 2\n"
+        argv = [a for i, a in enumerate(argv)
+                if a != "-D" and (i == 0 or argv[i - 1] != "-D")]
+        argv += ["-D", "json"]
     elif label == "unreadable-input":
         unreadable.append(rng.choice(inputs))
     elif label == "unreadable-config":
